@@ -480,6 +480,7 @@ let rec handle (line : string) : string =
         | Some (res, r') -> r := r';
           (match res with Ok f -> "OK " ^ str_msg (msg_of_frame f) | Err (RFrame e) -> str_ferr e | Err RIo -> "ER IO")) ms in
     Printf.sprintf "%s | left=%d" (String.concat " ; " outs) (List.length !r.r_content)
+  | "CHILD" :: inner -> handle (String.concat " " inner)   (* where a case is evaluated cannot matter *)
   | "TLSD" :: inner ->
     (* the inner case on a fresh thread and twice more while that thread is torn down: a pure function gives the same *)
     let r = handle (String.concat " " inner) in
